@@ -235,10 +235,20 @@ impl Model {
                 return Err(v("C20", "no_instant_leak", "send", format!("send of request {tid:#x} at +{} while {} other transaction(s) were outstanding answered {} instead of its own initial transmission", fmt_ns(now as i128), self.live_count(), reply.short())));
             }
         }
+        // what the model books as "the request": the serialisation handed to send — unless, while
+        // another property than C18 is under check, the agent put other bytes on the wire.  Then the
+        // model follows the agent (C18's business) and the request is what was *transmitted*: C07
+        // speaks of a request that "carried an integrity attribute", and what carried it is the wire.
+        let mut bytes = bytes;
+        let mut signed = signed;
         match reply {
             Reply::Transmit { data, from, to, tcp } => {
                 if data != bytes {
-                    return Err(v("C18", "initial_bytes", "send", format!("initial transmission differs from the serialised request ({}B vs {}B)", data.len(), bytes.len())));
+                    self.soft(v("C18", "initial_bytes", "send", format!("initial transmission differs from the serialised request ({}B vs {}B)", data.len(), bytes.len())), "foreign.C18.initial_bytes")?;
+                    if let Verdict::Accept(view) = refcodec::decode(data) {
+                        signed = view.all.iter().any(|a| a.ty == refcodec::MI || a.ty == refcodec::MI256);
+                    }
+                    bytes = data;
                 }
                 if *from != self.local || *to != dest || *tcp != self.tcp {
                     return Err(v("C18", "initial_addressing", "send", format!("initial transmission {from}->{to} tcp={tcp}, expected {}->{dest} tcp={}", self.local, self.tcp)));
